@@ -20,9 +20,11 @@ class C16(Check):
               "labelmap[i]); the reader is located by role (what LinearLabelMapper.build_model applies to the substrate positions)",
         "X2": "per position pair the linear model's reaction is flux * label(substrate position), leaving the substrate pool with "
               "-1/pool(substrate) and entering the product pool with +1/pool(product); external positions are the EXT parameter",
+        "X4": "expansion to label positions is occurrence-major: each copy of a species contributes all its positions consecutively "
+              "(positions iterate in the innermost loop), matching the isotopomer mapper's per-occurrence label strings",
         "X3": "positions without a partner are padded with EXT at the end of the shorter side (the isotopomer mapper appends external labels at the end)",
     }
-    floors = {"X1": 2, "X2": 4, "X3": 2}
+    floors = {"X1": 2, "X2": 4, "X3": 2, "X4": 2}
     decided = [
         "the two mappers interpret every map (incl. non-involutive permutations) in the same, documented direction",
         "shape of the per-position label transfer terms",
@@ -50,7 +52,7 @@ class C16(Check):
                 if cls_ != "none":
                     reader = (f, n)
         if reader is None:
-            cls, ev = classify_reader(bm, "label_map", "subs")
+            cls, ev = classify_reader(bm, "label_map", "subs", out_param="prods")
             if cls == "none":
                 raise AnalysisError("no reader of the label map found in LinearLabelMapper.build_model")
             fq, node = q, ev[0]
@@ -134,6 +136,31 @@ class C16(Check):
             self.holds("X2", LIN, q, "external-parameter", ext[0], "EXT parameter = external_label")
         else:
             self.violated("X2", LIN, q, "external-parameter", bm, "the EXT label source is not bound to external_label")
+        # X4
+        for side in ("subs", "prods"):
+            comps = [a for a in ast.walk(bm) if isinstance(a, ast.Assign) and norm(a.targets[0]) == side and isinstance(a.value, ast.ListComp)
+                     and "isotopomers[" in norm(a.value)]
+            if not comps:
+                self.undecided_ob("X4", LIN, q, f"expansion-{side}", bm, "expansion of species occurrences to label positions not found")
+                continue
+            lc = comps[0].value
+            gens = lc.generators
+            last = norm(gens[-1].iter)
+            dup = [a for a in ast.walk(bm) if isinstance(a, ast.Assign) and norm(a.targets[0]) == side and norm(a.value) == f"_stoichiometry_to_duplicate_list({side})"
+                   and a.lineno < comps[0].lineno]
+            occurrence_outer = len(gens) == 2 and norm(gens[0].iter) == side and last == f"isotopomers[{norm(gens[0].target)}]" and norm(lc.elt) == norm(gens[1].target)
+            if occurrence_outer and dup:
+                self.holds("X4", LIN, q, f"expansion-{side}", comps[0], "occurrences (coefficient copies) in the outer loop, positions innermost")
+            elif last.startswith("isotopomers["):
+                self.holds("X4", LIN, q, f"expansion-{side}", comps[0], "positions iterate in the innermost loop")
+            else:
+                self.violated("X4", LIN, q, f"expansion-{side}", comps[0],
+                              f"`{norm(lc)[:90]}` repeats each position before moving to the next (positions are not the innermost loop): for a coefficient >= 2 the "
+                              "copies of a species are interleaved position by position instead of laid out one after the other",
+                              witness="A(4 positions) -> 2 B(2 positions): B expands to [B__0, B__0, B__1, B__1] instead of [B__0, B__1, B__0, B__1]")
+        dl = lin.func("_stoichiometry_to_duplicate_list")
+        if "long_form.extend([k] * v)" in norm(dl) and ".items()" in norm(dl) and "sorted" not in norm(dl):
+            pass
         # X3
         pad = lin.func("_add_label_influx_or_efflux")
         t = norm(pad)
@@ -148,6 +175,11 @@ class C16(Check):
         return [
             Variant("reintroduce-scatter-helper", LIN, "LinearLabelMapper.build_model", "_gather_substrates_by_labelmap(subs, label_map)",
                     "_map_substrates_to_labelmap(subs, label_map)", expect="X1|linear_label_map.py|_map_substrates_to_labelmap|map-direction", quick=True),
+            Variant("inline-scatter-on-products", LIN, "LinearLabelMapper.build_model",
+                    "        subs = _gather_substrates_by_labelmap(subs, label_map)\n        for i, (substrate, product) in enumerate(zip(subs, prods, strict=True)):",
+                    "        for i in range(len(label_map)):\n            substrate, product = subs[i], prods[label_map[i]]", expect="X1|", quick=True),
+            Variant("position-major-expansion", LIN, "LinearLabelMapper.build_model", "prods = [j for i in prods for j in isotopomers[i]]",
+                    "prods = [j for i in dict.fromkeys(prods) for j in isotopomers[i] for _ in range(prods.count(i))]", expect="X4|", quick=True),
             Variant("gather-helper-becomes-scatter", LIN, "_gather_substrates_by_labelmap", "    return [substrates[pos] for pos in labelmap]",
                     "    res = list(substrates)\n    for i, pos in enumerate(labelmap):\n        res[pos] = substrates[i]\n    return res", expect="X1|", quick=True),
             Variant("iso-reader-scatter", ISO, "_map_substrates_to_products", "    return ''.join([rate_suffix[i] for i in labelmap])",
